@@ -59,6 +59,8 @@ class FaultFS:
                     op = dict(op='open', path=path, mode=mode, existed=existed,
                               trunc=('w' in mode), size_before=size)
                     if fs._next(op):
+                        if fs.fault_mode == 'interrupt':
+                            raise KeyboardInterrupt('injected interrupt (open)')
                         raise OSError(errno.EIO, 'injected I/O error (open)', path)
                     self._fs_path = path
                 super().__init__(file, mode, closefd, opener)
@@ -71,6 +73,9 @@ class FaultFS:
                     else os.lseek(self.fileno(), 0, os.SEEK_CUR)
                 op = dict(op='write', path=self._fs_path, off=off, data=data)
                 if fs._next(op):
+                    if fs.fault_mode == 'interrupt':
+                        op['written'] = 0
+                        raise KeyboardInterrupt('injected interrupt (write)')
                     if fs.fault_mode == 'partial' and len(data) > 1:
                         k = len(data) // 2
                         super().write(data[:k])
